@@ -15,21 +15,25 @@ PROP = {'gen': ['sixel'],
                'resolution; repeated draws return the cached bytes. Scaling tables and constants are regenerated from the source '
                'each run; the interpreter is run on the implementation bytes in the correspondence check.',
  'level_note': 'Trusted: Coq kernel + vm_compute; translate/sixel_tables.py (scaling tables and constants re-extracted from the source each '
-               'run and validated against the real code exhaustively); hand-written models validated by the correspondence run; '
+               'run; scale(pre(x)) validated against the real code for all 256 values); hand-written models validated by the correspondence run; '
                'rasterize blend_over and the 64-bit content hash are oracles. No axioms.',
  'technique': 'Coq proof (encoder/interpreter round trip for every hash iteration order) + regenerated tables + model/implementation correspondence',
  'design_ref': 'DESIGN.md 6.12',
- 'n_quick': 230,
+ 'n_quick': 200,
  'n_thorough': 3500,
  'shard': 20,
  'level': 'proof',
  'trusted_base': [KERNEL,
                   'translate/sixel_tables.py: the two channel scalings (256 entries each, exact binary32 evaluation), palette size, dither '
                   'flag, band height, skip/repeat thresholds and code offset are re-extracted from src/image.rs on every run '
-                  '(Gen/TabSixel.v) and validated against SixelImageHandler::draw for all 256 values',
+                  '(Gen/TabSixel.v); the composite scale(pre(x)) is validated against SixelImageHandler::draw for all 256 values of every '
+                  'channel, `scale` on values off the reduced grid only through averaged palette entries of > 256-colour images; '
+                  'IMAGE_CACHE_SIZE is extracted too',
                   'hand-written models Image/Sixel.v, Image/SixelDraw.v (encoder) and the C13 models (quantisation), tied to the code by '
                   'the correspondence run; the reference interpreter is written from the DEC sixel description',
-                  'rasterize::RGBA::blend_over (alpha compositing) and Surface::hash (cache key) are oracles',
+                  'rasterize::RGBA::blend_over (alpha compositing) supplies the composited colour of each transparent pixel; every such value is '
+                  'checked against the exact linear-light mix of Image/SrgbSpec.v (IEC 61966-2-1 table, independent of the crates) within '
+                  '+-1 level; Surface::hash (cache key) is an oracle',
                   HARNESS],
  'assumptions': ['the 64-bit FNV content hash used as cache key does not collide between different images drawn on one handler',
                  'the encoded-image cache stays below its 128 MB eviction threshold',
